@@ -112,6 +112,24 @@ Shape(t) ==
       m  == [x \in Names(c) |-> IF x < 1000 THEN PosIn(fs, x) ELSE x]
   IN Ren(c, m)
 
+(***************************************************************************)
+(* Patterns are terms whose leaves may be pattern variables: a leaf whose   *)
+(* operator starts with "?" (op = "?a", no slots, no children).             *)
+(* Inst(pat, sigma, rho): pattern variables replaced by the terms sigma     *)
+(* gives them, pattern slots renamed by the injective map rho (free and     *)
+(* bound pattern slots alike; the substituted terms are NOT renamed).       *)
+(***************************************************************************)
+IsPVar(t) == t.op \in {"?a", "?b", "?c"}
+
+RECURSIVE Inst(_, _, _)
+Inst(pat, sigma, rho) ==
+  IF IsPVar(pat) THEN sigma[pat.op]
+  ELSE [op |-> pat.op,
+        sl |-> [i \in DOMAIN pat.sl |-> rho[pat.sl[i]]],
+        ch |-> [k \in DOMAIN pat.ch |->
+                  [bd |-> [i \in DOMAIN pat.ch[k].bd |-> rho[pat.ch[k].bd[i]]],
+                   t  |-> Inst(pat.ch[k].t, sigma, rho)]]]
+
 (* swap two names everywhere (a bijection, hence capture-free)              *)
 Swap(t, x, z) ==
   Ren(t, [y \in Names(t) \cup {x, z} |-> IF y = x THEN z ELSE IF y = z THEN x ELSE y])
